@@ -22,7 +22,7 @@ for pid in sorted(SPECS):
     })
 m = {
     "version": 1,
-    "setup_cmd": "cd /verif/engine && GOFLAGS=-mod=mod GOPROXY=off GOSUMDB=off GOTOOLCHAIN=local go build -o /verif/bin/gosym ./cmd/gosym",
+    "setup_cmd": "cd /verif/engine && GOFLAGS=-mod=mod GOPROXY=off GOSUMDB=off GOTOOLCHAIN=local go build -o /verif/bin/gosym ./cmd/gosym && go build -o /verif/bin/scrape ./cmd/scrape",
     "hooks": {
         "guard": "none (no source hooks: harnesses and replay instrumentation are injected through go/packages and `go test -overlay` overlays generated at check time; /repo is never modified)",
         "enable": "overlay files /repo/zzverif/zzverif.go and /repo/<pkg>/zz_verif_*.go supplied by ./check (virtual, not written to /repo)",
